@@ -223,6 +223,21 @@ CLAIMS["C30"] = (
     "mysql_native_password plugin the stored-hash form is never consulted; read from the code, no obligation).",
     "DESIGN.md section 4, C30")
 
+CLAIMS["C10"] = (
+    "Hash, mod and range rules (locations lists), as a relation between the control-plane validator and the router's parser over the prefix "
+    "sums psum of the locations: models.verifyHashRuleSliceInfos accepts a list only with one entry per slice, no negative entry and at least "
+    "one table (the last two fixed in /repo), and the layout it computes has domain [0, sum) and maps table t to the slice i with psum(i) <= t "
+    "< psum(i+1); router.parseHashRuleSliceInfos, for every list the validator accepts, returns the sub-table list 0..sum-1 in order and "
+    "exactly the same table -> slice map (nested loop invariants, any number of slices and tables): every listed table belongs to exactly one "
+    "slice and the mapping follows the locations. HashShard / ModShard.FindForKey name only listed tables (0 <= index < ShardNum for every "
+    "key; ModShard fixed for math.MinInt64). verifyDefaultSlice: an accepted default slice is one of the namespace's slices (recorded finding: "
+    "an empty default_slice is accepted although NewRouter rejects it); includeSlice (both packages) is exact membership.",
+    "Assumed: configuration size bounds (<= 1024 slices, <= 2^20 tables per slice); psum is specified by two definitional axioms over the "
+    "list at function entry (the functions never write it). NOT under contract: NewRouter / parseRule as a whole (rule-type dispatch, "
+    "case-folding of table names, linked-rule parent lookup), the calendar and mycat rule parsers, database-list expansion (regexp), "
+    "Namespace.Verify's other checks (users, charset, allow-lists): 'accepted configurations load' is decided for the layout kernel only.",
+    "DESIGN.md section 4, C10")
+
 NA = {
  "C02": "not applicable to contract-based verification here: the oracle is the result of executing SQL on data (what one MySQL holding all shards would return); no contract within reach expresses an SQL execution semantics, and the rewriter is ~3k lines of visitors over TiDB AST types (DESIGN.md section 5)",
  "C06": "not applicable: the property compares a token pre-check with the decision of the yacc-generated parser; the specification is that parser (tables + hand-written lexer), which is outside the verifier's subset (DESIGN.md section 5)",
